@@ -84,6 +84,12 @@ func (g *generator) declareDefinition(schemas openapi3.Schemas) error {
 			return err
 		}
 
+		// an object is declared as a struct whatever its nullability: what refers
+		// to it carries that nullability (see walkRef)
+		if def.IsStruct() {
+			def.Nullable = false
+		}
+
 		g.schema.AddObject(ast.Object{
 			Name:     name,
 			Comments: schemaComments(schemaRef.Value),
@@ -184,7 +190,19 @@ func (g *generator) walkRef(schema *openapi3.SchemaRef) (ast.Type, error) {
 		ref.Nullable = true
 	}
 
+	// so is an object with properties
+	if schema.Value != nil && schema.Value.Nullable && isPlainObject(schema.Value) {
+		ref.Nullable = true
+	}
+
 	return ref, nil
+}
+
+// isPlainObject tells whether a schema is walked as a struct: properties, and no
+// composition keyword taking precedence over them.
+func isPlainObject(schema *openapi3.Schema) bool {
+	return schema.Type.Is(openapi3.TypeObject) && len(schema.Properties) != 0 && schema.Enum == nil &&
+		schema.AllOf == nil && schema.OneOf == nil && schema.AnyOf == nil
 }
 
 // refersToComponentSchema tells whether a reference designates a direct entry
